@@ -307,7 +307,7 @@ def run(ctx):
     if ctx.get('replay'):
         rp = json.load(open(ctx['replay']))
         rep = rp.get('replay') or {}
-        if rep.get('kind') in ('confusable', 'script'):
+        if rep.get('kind') in ('confusable', 'script', 'one-lab'):
             from props import c06x
             x = c06x.run_extra(rng, tier, only=rep)
             if x['errors']:
